@@ -178,17 +178,40 @@ def generate() -> Dict[str, Any]:
     if len(mins) != 1:
         raise T.Untranslatable('_flush_send_buf: `<size> = min(self._send_window, self._send_pktsize)` not found')
     asg = mins[0]
+    size_var = asg.targets[0].id if isinstance(asg.targets[0], ast.Name) else None
+    if size_var is None:
+        raise T.Untranslatable('_flush_send_buf: packet size is not assigned to a local')
     out += '/-- `pktsize = ' + ast.unparse(asg.value) + '` in `_flush_send_buf` -/\n'
     out += 'def flushPktsize (window maxpkt : Int) : Int :=\n  ' + \
         T.expr_to_lean(asg.value, {'self._send_window': 'window', 'self._send_pktsize': 'maxpkt'}) + '\n\n'
+    # an `if <test on the packet size>: break` directly in the loop body (the repair of F2), if any
+    breaks = [n for n in loops[0].body if isinstance(n, ast.If) and _mentions(n.test, size_var) and not n.orelse
+              and any(isinstance(m, ast.Break) for m in n.body) and n.lineno > asg.lineno]
+    if len(breaks) > 1:
+        raise T.Untranslatable('_flush_send_buf: more than one break on the packet size')
+    if breaks:
+        first_use = min((n.lineno for n in ast.walk(loops[0]) if isinstance(n, ast.Name) and n.id == size_var
+                         and isinstance(n.ctx, ast.Load) and n.lineno > asg.lineno), default=0)
+        if first_use < breaks[0].lineno:
+            raise T.Untranslatable('_flush_send_buf: the packet size is used before the break that guards it')
+        out += '/-- `if ' + ast.unparse(breaks[0].test) + ': break` right after the packet size is chosen -/\n'
+        out += 'def flushBreaks : Int → Bool :=\n  fun pktsize => decide ' + \
+            T.expr_to_lean(breaks[0].test, one_var_env(breaks[0].test, {}, 'pktsize')) + '\n\n'
+    else:
+        out += '/-- `_flush_send_buf` has no exit for a non-positive packet size -/\n'
+        out += 'def flushBreaks : Int → Bool :=\n  fun _ => false\n\n'
+    info['flush_break'] = ast.unparse(breaks[0].test) if breaks else None
     pd = T.find_def(chtree, 'SSHChannel._process_data')
     wins = [n for n in ast.walk(pd) if isinstance(n, ast.If) and 'self._recv_window' in ast.unparse(n.test)
             and any(isinstance(m, ast.Raise) for b in n.body for m in ast.walk(b))]
     if len(wins) != 1:
         raise T.Untranslatable('_process_data: window check not found')
-    out += '/-- `' + ast.unparse(wins[0].test) + '` raises ProtocolError("Window exceeded") in `_process_data` -/\n'
-    out += 'def windowExceeded (datalen window : Int) : Bool :=\n  decide ' + \
-        T.expr_to_lean(wins[0].test, one_var_env(wins[0].test, {'self._recv_window': 'window'}, 'datalen')) + '\n\n'
+    out += '/-- `' + ast.unparse(wins[0].test) + '` raises ProtocolError("Window exceeded") in `_process_data`;\n' \
+           '    `buffered` is `_recv_buf_len` (bytes accepted while reading is paused), 0 where the tree has no such field -/\n'
+    out += 'def windowExceeded (datalen window buffered : Int) : Bool :=\n  let _ := buffered\n  decide ' + \
+        T.expr_to_lean(wins[0].test, one_var_env(wins[0].test, {'self._recv_window': 'window',
+                                                                 'self._recv_buf_len': 'buffered'}, 'datalen')) + '\n\n'
+    info['window_check'] = ast.unparse(wins[0].test)
 
     # receive block sizes: SSHConnection starts with 8 and takes max(8, cipher block size) afterwards
     init = T.find_def(tree, 'SSHConnection.__init__')
